@@ -209,7 +209,9 @@ IntfCm(name, no) ==
   /\ ifcm' = IF g # "" THEN ifcm ELSE [ifcm EXCEPT ![mode.v] = IF no THEN "" ELSE name]
   /\ UNCHANGED <<acl, intf, route, cmap, mode>>
 
-Exit   == mode' = Top /\ UNCHANGED <<acl, intf, route, cmap, ifcm, err>>
+\* `exit` in global configuration mode LEAVES configuration mode: every later command would be refused
+ExitG == IF mode = Top THEN "exit in global configuration mode (leaves configuration mode)" ELSE ""
+Exit   == err' = Latch(ExitG) /\ mode' = Top /\ UNCHANGED <<acl, intf, route, cmap, ifcm>>
 Resume == mode' = Top /\ UNCHANGED <<acl, intf, route, cmap, ifcm, err>>
 
 Integrity ==
